@@ -385,7 +385,7 @@ def udpSend (s : State) (id : Nat) : State :=
   | some h =>
     let emptyQueue := h.sqc == 0
     let r := s.nextReq
-    let s := { s with ar := reqRegister s.ar, reqs := s.reqs ++ [⟨r, .udpSend id⟩], nextReq := r + 1 }
+    let s := { s with ar := reqRegister s.ar, reqs := s.reqs ++ [({ id := r, kind := .udpSend id } : Req)], nextReq := r + 1 }
     let s := modH s id (fun h => { h with io := { h.io with hasFd := true }, sqc := h.sqc + 1, wq := h.wq ++ [r] })
     let s := hStart s id
     if emptyQueue && !h.processing then
@@ -469,7 +469,7 @@ def initLoop (clock0 : Nat) (metrics : Bool) (oracle : List PollRes) : State :=
 /-! ### thread pool (pool size 1; completions arrive as inputs at poll time) -/
 def workSubmit (s : State) : State :=
   let r := s.nextReq
-  let s := { s with ar := reqRegister s.ar, reqs := s.reqs ++ [⟨r, .work⟩], nextReq := r + 1 }
+  let s := { s with ar := reqRegister s.ar, reqs := s.reqs ++ [({ id := r, kind := .work } : Req)], nextReq := r + 1 }
   match s.running with
   | none => { s with running := some r }
   | some _ => { s with poolQ := s.poolQ ++ [r] }
@@ -592,7 +592,7 @@ def applyOp (s : State) (o : Op) : State × Ret :=
     | none => illegal s
   | .work r => if r == s.nextReq then ok (workSubmit s) else illegal s
   | .cancel r =>
-    if s.reqs.contains ⟨r, .work⟩ then let (s, rc) := workCancel s r; ok s rc else illegal s
+    if s.reqs.contains ({ id := r, kind := .work } : Req) then let (s, rc) := workCancel s r; ok s rc else illegal s
   | .stopLoop => ok { s with stop := true }
   | .updateTime => ok (updateTime s)
   | .advance n => ok { s with clock := s.clock + n }
